@@ -3,29 +3,89 @@ import json, os, re
 from collections import defaultdict
 
 
+class LazyBodies:
+    """path -> Body, parsing a body's JSON line only when it is first needed."""
+
+    def __init__(self):
+        self.raw = {}      # path -> (line, types, files, crate)
+        self.parsed = {}
+
+    def add_raw(self, path, line, types_files, crate):
+        self.raw[path] = (line, types_files, crate)
+
+    def get(self, path, default=None):
+        b = self.parsed.get(path)
+        if b is not None:
+            return b
+        r = self.raw.get(path)
+        if r is None:
+            return default
+        tf = r[1]
+        b = Body(json.loads(r[0]), tf["types"], tf["files"], r[2])
+        self.parsed[path] = b
+        return b
+
+    def __getitem__(self, path):
+        b = self.get(path)
+        if b is None:
+            raise KeyError(path)
+        return b
+
+    def __contains__(self, path):
+        return path in self.raw
+
+    def __len__(self):
+        return len(self.raw)
+
+    def keys(self):
+        return self.raw.keys()
+
+    def values(self):
+        return [self.get(p) for p in self.raw]
+
+    def items(self):
+        return [(p, self.get(p)) for p in self.raw]
+
+    def mentioning(self, *needles):
+        """bodies whose raw JSON contains any of the given substrings (cheap prefilter for whole-program scans)."""
+        out = []
+        for p, (line, _, _) in self.raw.items():
+            if any(n in line for n in needles):
+                out.append(self.get(p))
+        return out
+
+
+_PATH_RX = re.compile(r'"path":"((?:[^"\\]|\\.)*)"')
+
+
 class Facts:
     def __init__(self, directory, crates):
         self.dir = directory
-        self.bodies = {}          # path -> Body
+        self.bodies = LazyBodies()   # path -> Body
         self.adts = {}            # path -> adt record
         self.impls = []           # impl records (with 'crate')
         self.consts = {}          # path -> (ty, int)
         self.crates = {}          # name -> crate record
         for c in crates:
             p = os.path.join(directory, c + ".facts.jsonl")
-            recs = []
+            tf = {}
+            other = []
             with open(p) as fh:
                 for line in fh:
-                    recs.append(json.loads(line))
-            crate = [r for r in recs if r["k"] == "crate"][0]
-            self.crates[c] = crate
-            types, files = crate["types"], crate["files"]
-            for r in recs:
+                    if line.startswith('{"k":"body"'):
+                        m = _PATH_RX.search(line)
+                        path = json.loads('"' + m.group(1) + '"')
+                        self.bodies.add_raw(path, line, tf, c)
+                    else:
+                        other.append(json.loads(line))
+            crate = [r for r in other if r["k"] == "crate"][0]
+            tf["types"] = crate["types"]
+            tf["files"] = crate["files"]
+            self.crates[c] = {k: v for k, v in crate.items() if k not in ("types", "files")}
+            files = crate["files"]
+            for r in other:
                 k = r["k"]
-                if k == "body":
-                    b = Body(r, types, files, c)
-                    self.bodies[b.path] = b
-                elif k == "adt":
+                if k == "adt":
                     self.adts.setdefault(r["path"], r)
                 elif k == "impl":
                     r["crate"] = c
@@ -42,7 +102,7 @@ class Facts:
     def find(self, pattern):
         """bodies whose path matches the regex (search)."""
         rx = re.compile(pattern)
-        return [b for p, b in self.bodies.items() if rx.search(p)]
+        return [self.bodies.get(p) for p in self.bodies.keys() if rx.search(p)]
 
     def one(self, pattern):
         m = self.find(pattern)
